@@ -168,6 +168,19 @@ CHECKS = {
        "running or active thread.",
   note="Oracle: lib/refemu.py FullSystem over spec/events.json. Models allowing duplicates (nOS-V, OpenMP) are only "
        "judged in the direction the property states."),
+ "C07": dict(
+  cat="exploration", ref="DESIGN.md section 3, C07",
+  technique="runtime monitoring: bounded-exhaustive legal-prefix closure on the real task.c/body.c in an ASan+UBSan harness plus nOS-V/Nanos6 task histories through the real ovniemu, reference body/task machine as oracle",
+  text="(A) The real task module is driven in-process under ASan+UBSan for 17 flag combinations of {parallel, resurrect, "
+       "pause, relax-nesting}: every legal prefix of bounded length over execute/pause/resume/end x five bodies x two "
+       "thread stacks is extended by every next operation; the return code of that operation and the body the module "
+       "reports as running on each stack must agree with the machine of the statement; random sequences to length 30 on "
+       "top. (B) nOS-V (normal and parallel tasks, body ids, API pause region) and Nanos6 (blocking region) histories on "
+       "two threads - closure to depth 3/5 and random to length 50 - go through the real ovniemu: acceptance must match "
+       "the reference and types 10-15 / 35-38 must show the running body's task id, type (by label), body id, app id and "
+       "rank exactly while a body runs.",
+  note="Nothing after a failed operation is compared. The Nanos6 subsystem re-entry rule (C08 carve-out) is part of the "
+       "end-to-end reference, see DESIGN.md."),
 }
 
 NOT_YET = "check not implemented yet in this revision (work in progress, see DESIGN.md section 3)"
